@@ -226,6 +226,10 @@ def fingerprint(ops, d):
     scripted = any(o.startswith('new ') and not o.endswith(' -') for o in ops)
     bad_sig = any(set(w[2].split(',')) & {'0', '3'} for w in inits if len(w) == 4)
     msg = (d[1] if d else '')
+    news = [o.split() for o in ops if o.startswith('new ')]
+    import re as _re
+    reentrant = any(len(w) == 3 and str(i) in _re.findall(r'[edxi](\d+)', w[2]) for i, w in enumerate(news))
+    if reentrant and ('pass' in msg or 'CRASH' in msg): return 'reentrant-callback'
     if scripted and ('pass' in msg or 'CRASH' in msg): return 'callback-on-stale-subscriber'
     if bad_sig: return 'enable-fails-midway'
     seen, en = set(), set()
